@@ -144,14 +144,14 @@ template <typename KeyT, typename ValueT>
 std::istream& deserialize(std::istream& is, std::map< KeyT, ValueT >& rhs)
 {
 
-    size_t size;
+    size_t size = 0;
     is >> size;
     rhs.clear();
     // stop at the first failed extraction: the declared size is untrusted input
     for (size_t i=0; i<size && is; i++)
     {
-        KeyT key;
-        ValueT value;
+        KeyT key{};
+        ValueT value{};
         deserialize(is, key);
         deserialize(is, value);
         rhs[key] = value;
@@ -172,7 +172,7 @@ std::ostream& serialize(std::ostream& _ostr, const std::vector< ValueT >& _rhs)
 template <typename ValueT>
 std::istream& deserialize(std::istream& _istr, std::vector< ValueT >& _rhs)
 {
-    size_t size;
+    size_t size = 0;
     _istr >> size;
     _rhs.resize(size);
     // stop at the first failed extraction: the declared size is untrusted input
